@@ -35,9 +35,11 @@ SPEC = dict(
              'holds with the regenerated parser in place of the hand model (cell constructor and Boc.__init__ stay hand models). A change of any line of those functions breaks a proof obligation; the check '
              'then round-trips boundary DAGs (every data length around the byte boundaries, 1-4 references, exotic cells) first. '
              'TIE TO THE SOURCE, emitter half and input forms: Cell.serialize / order / to_boc (cell.py) and Boc.__init__ (deserialize.py) are regenerated on every run '
-             '(harness/translate/bocemit.py, pydict.py -> Generated/BocEmitSrc.lean) and proved equal, for all cell objects / option sets / iteration budgets / texts, to Model/BocEmit.lean and '
-             'BocForms.inputBytes (c03_src_emitter, c03_src_forms); c03_roundtrip_src2: regenerated emitter, regenerated input-form detection and regenerated parser compose to the identity on every '
-             'spec-valid DAG and all 6 valid option sets (bytes, hex and base64 form). bytes.fromhex / base64.b64decode, the cell constructor (C01/C02 tie) and the entry points stay hand models.',
+             '(harness/translate/bocemit.py, pydict.py -> Generated/BocEmitSrc.lean) and proved, for all cell objects / option sets / iteration budgets / texts: Boc.__init__ = BocForms.inputBytes (c03_src_forms); the regenerated Cell.order returns a valid order by its own loop '
+             'invariant and the regenerated to_boc is the lookup + layout of exactly these cells (C04: c04_src_order_valid_any, c04_src_to_boc_any); c03_roundtrip_src2: regenerated emitter, regenerated '
+             'input-form detection and regenerated parser compose to the identity on every spec-valid DAG and all 6 valid option sets (bytes, hex and base64 form) - proved through the round trip for ANY '
+             'valid order (Proofs/BocRoundTripAny.lean), not through the hand model of the traversal; the equality regenerated to_boc = PCell.toBoc (c03_src_emitter) is the separate module '
+             'Properties/C04Model.lean (if only it breaks: traversal tie = valid-order-only, see C04). bytes.fromhex / base64.b64decode, the cell constructor (C01/C02 tie) and the entry points stay hand models.',
         level_note='Trusted: Lean kernel (propext, Classical.choice, Quot.sound); the hand models Model/BocEmit.lean (proved equal to the emitter regenerated from cell.py: translator pydict.py / pyobj.py + declared interface in bocemit.py + PyDict.lean trusted, validated against the library on every change; also tied byte-for-byte in C04), Model/BocParse.lean (header parser, cell reader and the loops of deserialize: proved equal to the functions regenerated from the source, translator harness/translate/pyloops.py + pybytes.py trusted and validated against CPython on every change; Boc.__init__: tied differentially in C05 and here on '
                    'every emitted bag <= 1500 bytes), Model/BocForms.lean (bocinput correspondence), Model/BocEntry.lean (bocone correspondence) and Model/Cell.lean (constructor, C01/C02); '
                    'base64/binascii/bytes.fromhex behave as modelled; SHA-256 abstract (arbitrary H) with the local NoCollision hypothesis; bounds 2^32 cells / 2^63 payload bytes are the format\'s. '
@@ -47,8 +49,8 @@ SPEC = dict(
                   '+ full round trip through the library as oracle + differential correspondence of every model',
     ),
     translators=[('deserialize.py deserialize_boc_header, deserialize_cell, deserialize->Generated/BocHeader.lean, BocCells.lean', boccells.regenerate),
-                 ('cell.py Cell.serialize, order, to_boc; deserialize.py Boc.__init__->Generated/BocEmitSrc.lean', bocemit.regenerate)],
-    lean_targets=['TonVerif.Proofs.SrcBocDeser', 'TonVerif.Proofs.SrcBocEmit'],
+                 (bocemit.TIE_NAME, bocemit.regenerate_tied)],
+    lean_targets=['TonVerif.Proofs.SrcBocDeser', 'TonVerif.Proofs.SrcBocEmit', 'TonVerif.Proofs.SrcOrderAny', 'TonVerif.Proofs.SrcBocAny'],
     design_ref='DESIGN.md §6 C03',
     rule='same DAG generators as C04; each DAG x 6 option sets x {bytes, hex, base64} x {Cell, Slice, Builder}.one_from_boc (large DAGs: all option sets through Cell/bytes, one option set '
          'through all forms and entry points); distinct = distinct (dag, root, option set, form, entry); non-trivial = more than one cell or non-empty data',
@@ -301,6 +303,11 @@ def run(ctx):
         check_case(ctx, f'inner{r}', nodes, r)
     check_forms_model(ctx, ctx.rng)
     check_forms_oracle(ctx, [])         # hex in every spelling bytes.fromhex reads, base64: Boc(text).data = the bytes
+    if bocemit.valid_order_only(ctx):
+        # only the MODEL EQUALITY of the traversal (Properties/C04Model.lean) is broken; c03_roundtrip_src2 is proved from the
+        # regenerated loop's invariant (core built and audited Properties/C03.lean).  The correspondence of this check runs the
+        # parser model on the LIBRARY's bytes and does not depend on the emitter model's visiting order.
+        bocemit.note_valid_order_only(ctx)
 
 
 def replay(ctx, payload):
